@@ -1112,3 +1112,48 @@ package state
 //@ ensures[index-max-merged] err == nil ==> idxVal("peering-trust-bundles") == ite(old(idxVal("peering-trust-bundles")) >= ptb.ModifyIndex, old(idxVal("peering-trust-bundles")), ptb.ModifyIndex)
 //@ modifies T.peering-trust-bundles, T.index
 
+
+//@ file usage.go
+
+// C07 (usage counters follow the catalog): the per-kind connect instance deltas of one changed service instance. The
+// counter name is used as a deterministic function of the kind (fmt.Sprintf of two strings); the contract is exact per
+// counter name, so it holds whether or not two kinds map to the same name.
+//@ func connectUsageTableName
+//@ props C07
+//@ opt pure yes
+//@ modifies nothing
+
+//@ pure svcOf(x any) *structs.ServiceNode = as[*structs.ServiceNode](x)
+//@ pure kindDelta(k string, sn *structs.ServiceNode, d int) int = ite(sn.ServiceKind != "" && k == connectUsageTableName(string(sn.ServiceKind)), d, 0)
+//@ pure nativeDelta(k string, on bool, d int) int = ite(on && k == connectUsageTableName("connect-native"), d, 0)
+
+//@ func connectDeltas
+//@ props C07
+//@ requires usageDeltas != nil
+//@ requires change.Before != nil || change.After != nil
+//@ requires change.Before != nil ==> is[*structs.ServiceNode](change.Before) && svcOf(change.Before) != nil
+//@ requires change.After != nil ==> is[*structs.ServiceNode](change.After) && svcOf(change.After) != nil
+//@ ensures[update-moves-one-instance-between-kinds] change.Before != nil && change.After != nil ==> forall k string :: usageDeltas[k] == old(usageDeltas[k]) - kindDelta(k, svcOf(change.Before), 1) + kindDelta(k, svcOf(change.After), 1) + nativeDelta(k, svcOf(change.Before).ServiceConnect.Native != svcOf(change.After).ServiceConnect.Native, ite(svcOf(change.Before).ServiceConnect.Native, 0 - 1, 1))
+//@ ensures[create-adds-delta] change.Before == nil ==> forall k string :: usageDeltas[k] == old(usageDeltas[k]) + kindDelta(k, svcOf(change.After), delta) + nativeDelta(k, svcOf(change.After).ServiceConnect.Native, delta)
+//@ ensures[delete-adds-delta] change.After == nil ==> forall k string :: usageDeltas[k] == old(usageDeltas[k]) + kindDelta(k, svcOf(change.Before), delta) + nativeDelta(k, svcOf(change.Before).ServiceConnect.Native, delta)
+//@ modifies map:usageDeltas
+
+// Billable instances = typical-kind instances whose service is not the "consul" server service (the definition in the
+// function's own comment and what Store.ServiceUsage is compared with when recomputed from the services table).
+//@ func billableServiceInstancesTableName
+//@ props C07
+//@ opt pure yes
+//@ modifies nothing
+
+//@ pure billable(sn *structs.ServiceNode) int = ite(sn.ServiceKind == "" && sn.ServiceName != "consul", 1, 0)
+
+//@ func billableServiceInstancesDeltas
+//@ props C07
+//@ requires usageDeltas != nil
+//@ requires change.Before != nil || change.After != nil
+//@ requires change.Before != nil ==> is[*structs.ServiceNode](change.Before) && svcOf(change.Before) != nil
+//@ requires change.After != nil ==> is[*structs.ServiceNode](change.After) && svcOf(change.After) != nil
+//@ ensures[update-counts-the-difference] change.Before != nil && change.After != nil ==> forall k string :: usageDeltas[k] == old(usageDeltas[k]) + ite(k == billableServiceInstancesTableName(), billable(svcOf(change.After)) - billable(svcOf(change.Before)), 0)
+//@ ensures[create-adds-delta] change.Before == nil ==> forall k string :: usageDeltas[k] == old(usageDeltas[k]) + ite(k == billableServiceInstancesTableName(), billable(svcOf(change.After)) * delta, 0)
+//@ ensures[delete-adds-delta] change.After == nil ==> forall k string :: usageDeltas[k] == old(usageDeltas[k]) + ite(k == billableServiceInstancesTableName(), billable(svcOf(change.Before)) * delta, 0)
+//@ modifies map:usageDeltas
